@@ -1,14 +1,13 @@
-"""Per-property configuration of vcheck: theorem module, correspondence streams, notes."""
+"""Per-property configuration: loads tools/props.d/Cxx.py (each defines PROP and CHECK)."""
+import os
 
-PROPS = {
-    "C19": {
-        "module": "UmProps.C19",
-        "gen_modules": ["Consts"],
-        "streams": [{"name": "ttl", "harness": "umh_ttl", "driver": "ttl"}],
-        "assumptions": [
-            "Redis PTTL replies are canonical decimal i64 (-2 missing, -1 persistent, n>=0 ms left); RESTORE reads ttl 0 as 'no expiry'",
-            "btoi 0.4.2 grammar as transliterated in UmModel/Bytes.lean (differentially checked on every run)",
-        ],
-        "gaps": [],
-    },
-}
+PROPS, CHECKS = {}, {}
+_d = os.path.join(os.path.dirname(os.path.abspath(__file__)), "props.d")
+for _fn in sorted(os.listdir(_d)):
+    if _fn.endswith(".py"):
+        _ns = {}
+        with open(os.path.join(_d, _fn)) as _f:
+            exec(compile(_f.read(), _fn, "exec"), _ns)
+        _pid = _fn[:-3]
+        PROPS[_pid] = _ns["PROP"]
+        CHECKS[_pid] = _ns["CHECK"]
